@@ -1359,8 +1359,19 @@ struct TemplateCore {
             // Sort
             if (tag.Options > SizeT8{1}) {
                 if (tag.GroupLength == 0) {
-                    grouped_set = *loop_set;
-                    loop_set    = &grouped_set;
+                    // Copy the set itself: the copy of a pointer-to-value is a pointer again, and sorting that sorts nothing.
+                    const typename Value_T::ObjectT *set_object = loop_set->GetObject();
+                    const typename Value_T::ArrayT  *set_array  = loop_set->GetArray();
+
+                    if (set_object != nullptr) {
+                        grouped_set = *set_object;
+                    } else if (set_array != nullptr) {
+                        grouped_set = *set_array;
+                    } else {
+                        grouped_set = *loop_set;
+                    }
+
+                    loop_set = &grouped_set;
                 }
 
                 grouped_set.Sort((tag.Options & LoopTagOptions::SortAscend) == LoopTagOptions::SortAscend);
